@@ -156,6 +156,9 @@ def to_contract(qualname, hs, vidx, command=None, extra_requires=(), check_wf=Tr
                 g = f"old({o.guard})"
                 for c in o.post:
                     cl.append(Clause(c.id, f"implies({g}, {c.text})", c.tag, guard=g))
+                if o.log is not None and not any("SM" in c.text for c in o.post):
+                    # only Gateway.send and a wake touch the sleep buffer: every other handled message leaves it alone (C07)
+                    cl.append(Clause("C07/buffer-untouched-by-non-wake-messages", f"implies({g}, same_dict(SM))", "property", guard=g))
                 cl.append(Clause(log_id(o) if o.log is not None else "C07/log-grows", f"implies({g}, {log_text(o)})", "property", guard=g))
             cl.append(H(f"cases/{kind}", " or ".join(f"old({o.guard})" for o in outs)))
         if kind == "normal":
